@@ -8,6 +8,11 @@
 #define SIZE_TY unsigned long           /* the allocator_interface's size_ty of the configuration */
 #endif
 SIZE_TY nondet_size_ty (void);
+#ifdef REPLAY_SMALL
+/* small model used only to obtain a natively replayable counterexample of an obligation that already failed */
+static SIZE_TY replay_small_size (void) { SIZE_TY x = nondet_size_ty (); __CPROVER_assume (x <= 8); return x; }
+#define nondet_size_ty() replay_small_size ()
+#endif
 #ifndef CFG_SRC_BOUND
 #define CFG_SRC_BOUND (1ul << 50)        /* length bound of the caller's ranges (independent of size_type) */
 #endif
@@ -37,6 +42,9 @@ static void ghost_init (void)
   /* configuration class: the inline capacity does not exceed max_size () (the other class is known finding KF-C12-1) */
   __CPROVER_assume (CAP_N <= MAXSZ && CAP_M <= MAXSZ);
 #endif
+#ifdef REPLAY_SMALL
+  __CPROVER_assume (CAP_N <= 4 && CAP_M <= 6);
+#endif
   __CPROVER_assume (!exc && exc_kind == EXC_NONE);
   /* watchers denoting the same cell carry the same state */
   __CPROVER_assume (!(WP[0] == WP[1]) || WS[0] == WS[1]);
@@ -46,6 +54,11 @@ static void ghost_init (void)
 }
 
 /* a container object with inline capacity n (symbolic), on the heap so that its size can be symbolic */
+#ifdef REPLAY_SMALL
+#define REPLAY_SMALL_CAP(c) __CPROVER_assume ((c) <= 8);
+#else
+#define REPLAY_SMALL_CAP(c)
+#endif
 #define DEFINE_MK_SVB(NAME, T) \
 static T *NAME (unsigned int n) \
 { \
@@ -53,6 +66,7 @@ static T *NAME (unsigned int n) \
   __CPROVER_assume (s != 0); \
   unsigned long cap = nondet_ulong (), size = nondet_ulong (); \
   __CPROVER_assume (cap >= n && size <= cap && cap <= CFG_ALLOC_MAX_BOUND); \
+  REPLAY_SMALL_CAP (cap) \
   SZ (s) = size; CAP (s) = cap; AID (s) = nondet_int (); \
   if (cap == n) \
     DATA (s) = STORAGE (s); \
